@@ -15,7 +15,7 @@ pub struct HookTable {
     >,
     pub waitpid: Option<unsafe fn(c_int, *mut c_int, c_int) -> Option<c_int>>,
     pub kill: Option<unsafe fn(c_int, c_int) -> Option<c_int>>,
-    pub pipe: Option<unsafe fn(*mut c_int) -> Option<c_int>>,
+    pub pipe: Option<unsafe fn(*mut c_int, c_int) -> Option<c_int>>,
     pub fcntl: Option<unsafe fn(c_int, c_int, c_long) -> Option<c_int>>,
     pub dup2: Option<unsafe fn(c_int, c_int) -> Option<c_int>>,
     pub fork_pre: Option<unsafe fn() -> Option<c_int>>,
@@ -181,11 +181,20 @@ macro_rules! define_interposers {
         #[no_mangle]
         pub unsafe extern "C" fn pipe(fds: *mut __c_int) -> __c_int {
             if let Some(f) = $crate::hooks::hooks().pipe {
-                if let Some(r) = f(fds) {
+                if let Some(r) = f(fds, 0) {
                     return r;
                 }
             }
             $crate::raw::pipe2(fds, 0)
+        }
+        #[no_mangle]
+        pub unsafe extern "C" fn pipe2(fds: *mut __c_int, flags: __c_int) -> __c_int {
+            if let Some(f) = $crate::hooks::hooks().pipe {
+                if let Some(r) = f(fds, flags) {
+                    return r;
+                }
+            }
+            $crate::raw::pipe2(fds, flags)
         }
         #[no_mangle]
         pub unsafe extern "C" fn fcntl(fd: __c_int, cmd: __c_int, arg: __c_long) -> __c_int {
